@@ -121,6 +121,11 @@ MD = dict(COMMON,
     loops={1: dict(invariant=['same(mu, model.belief_propagation(theta))', 'same(ans, self._marginal_loss(mu))', 'carries(theta)']),
            2: dict(invariant=['same(mu, model.belief_propagation(theta))', 'same(ans, self._marginal_loss(mu))',
                               'carries(theta)', 'carries(omega)', 'finite(dL)'])},
+    # C03 (Armijo rule shape): a line-search step is accepted exactly when the loss decrease of the candidate computed from
+    # omega - alpha*dL is at least 0.5*alpha*<dL, nu - mu_candidate>  (or line search is off)
+    sites=[dict(func='if', contains='break', name='C03:armijo-acceptance-test',
+                spec='nols or (curr_loss - self._marginal_loss(model.belief_propagation(omega - alpha*dL))[0] >= '
+                     '0.5*alpha*dL.dot(nu - model.belief_propagation(omega - alpha*dL)))')],
     ensures={'C08:marginals-are-BP-of-stored-parameters': COHERENT,
              'C10:stored-parameters-carry-structural-zeros': 'carries(model.potentials)',
              'C10:stored-marginals-zero-at-declared-cells': 'implies(assigned(model, "marginals"), zeroed(model.marginals))'})
@@ -147,4 +152,7 @@ FUNCTIONS = [
 
 
 def hooks_for(contract):
+    if contract.get('sites'):
+        from ..vc.sitehooks import SiteSpecHooks
+        return SiteSpecHooks(contract['sites'], inner=InferHooks())
     return InferHooks()
